@@ -131,6 +131,12 @@ func (i *interpreter) ensureInit(pkg *ssa.Package) {
 		i.initing--
 		undoEnabled = saved
 		if p := recover(); p != nil {
+			if ab, ok := p.(abortRun); ok && (ab.kind == "engine" || ab.kind == "unsupported" || ab.kind == "unwind") {
+				// an initialiser the engine cannot run: its globals keep what was set so far;
+				// recorded, and fatal only if the harness later depends on it
+				initFailures[pkg.Pkg.Path()] = describePanic(p)
+				return
+			}
 			if isControlPanic(p) {
 				panic(p)
 			}
@@ -391,6 +397,18 @@ func visitInstr(fr *frame, instr ssa.Instruction) continuation {
 func lookup(instr *ssa.Lookup, x, idx value) value {
 	switch x := x.(type) {
 	case *hmap:
+		if x != nil && x.n > 64 && !x.hasSymKeys() {
+			if _, concrete := keyString(idx); !concrete {
+				// symbolic key into a large constant table (vendor prefixes): the result is an
+				// uninterpreted function of the key; only equality of two look-ups is defined
+				et := instr.X.Type().Underlying().(*types.Map).Elem()
+				if isString(et) && !instr.CommaOk {
+					modelsUsed["large-map lookup as uninterpreted function of the key"]++
+					return &absstr{tag: fmt.Sprintf("maplookup@%p", x), args: flattenKey(idx)}
+				}
+				panic(unsupported("symbolic key into a large map"))
+			}
+		}
 		v, ok := x.lookup(idx)
 		if !ok {
 			v = zero(instr.X.Type().Underlying().(*types.Map).Elem())
@@ -618,4 +636,22 @@ func doRecover(caller *frame) value {
 		}
 	}
 	return iface{}
+}
+
+func flattenKey(v value) []value {
+	switch v := v.(type) {
+	case array:
+		var out []value
+		for _, x := range v {
+			out = append(out, flattenKey(x)...)
+		}
+		return out
+	case structure:
+		var out []value
+		for _, x := range v {
+			out = append(out, flattenKey(x)...)
+		}
+		return out
+	}
+	return []value{v}
 }
